@@ -178,7 +178,10 @@ impl Recorder {
         if let Some(r) = self.probes.get(&key) {
             return r;
         }
-        let r = probe_empty(alg, ft, m, call, self.limit_ms);
+        // the limit is generous (a loaded machine must not turn a slow process start into a "hang"); once the same
+        // call has hung for three sizes the remaining sizes are not waited for again
+        let hung = self.probes.iter().filter(|(k, v)| k.0 == alg && k.1 == ft && k.3 == call && **v == "hang").count();
+        let r = if hung >= 3 { "hang" } else { probe_empty(alg, ft, m, call, self.limit_ms) };
         self.probes.insert(key, r);
         r
     }
@@ -341,7 +344,7 @@ fn fresh_items(n: usize, rng: &mut impl Rng) -> Vec<u64> {
         .collect()
 }
 
-/// replay in=<SCHED ndjson> out=<trace> seed=N stride=K ms=1,2,3 limit_ms=3000
+/// replay in=<SCHED ndjson> out=<trace> seed=N stride=K ms=1,2,3 limit_ms=30000
 fn replay(a: &Args) {
     silence_panics();
     let scheds = read_ndjson(&a.str("in"));
@@ -349,8 +352,8 @@ fn replay(a: &Args) {
     let stride = a.usize_or("stride", 1).max(1);
     let ms: Vec<usize> = a.str_or("ms", "1,2,3,5,64").split(',').map(|s| s.parse().unwrap()).collect();
     let mut rng = rng_from(seed, 909);
-    let mut rec = Recorder { out: Out::create(&a.str("out")), run: 0, limit_ms: a.u64_or("limit_ms", 3000), probes: HashMap::new() };
-    start_watchdog(a.str("out"), a.u64_or("hang_ms", 10000));
+    let mut rec = Recorder { out: Out::create(&a.str("out")), run: 0, limit_ms: a.u64_or("limit_ms", 30000), probes: HashMap::new() };
+    start_watchdog(a.str("out"), a.u64_or("hang_ms", 60000));
     rec.out.line(&json!({"kind": "dens"}));
     let offset = (seed as usize) % stride;
     for (si, s) in scheds.iter().enumerate() {
@@ -390,15 +393,15 @@ fn replay(a: &Args) {
     rec.out.finish();
 }
 
-/// patterns out=<trace> m=M seed=N limit_ms=3000 : every occupancy pattern of m bins (incl. the empty one),
+/// patterns out=<trace> m=M seed=N limit_ms=30000 : every occupancy pattern of m bins (incl. the empty one),
 /// realised with witness items, item-wise + end_sketch on instance 1 and one sketch_slice on instance 2
 fn patterns(a: &Args) {
     silence_panics();
     let seed = a.u64_or("seed", 1);
     let m = a.usize_or("m", 4);
     let mut rng = rng_from(seed, 910 + m as u64);
-    let mut rec = Recorder { out: Out::create(&a.str("out")), run: 0, limit_ms: a.u64_or("limit_ms", 3000), probes: HashMap::new() };
-    start_watchdog(a.str("out"), a.u64_or("hang_ms", 10000));
+    let mut rec = Recorder { out: Out::create(&a.str("out")), run: 0, limit_ms: a.u64_or("limit_ms", 30000), probes: HashMap::new() };
+    start_watchdog(a.str("out"), a.u64_or("hang_ms", 60000));
     rec.out.line(&json!({"kind": "dens"}));
     for (alg, ft) in KINDS {
         if a.get("alg").map(|x| x != alg).unwrap_or(false) || a.get("ft").map(|x| x != ft).unwrap_or(false) {
@@ -455,8 +458,8 @@ fn ties(a: &Args) {
     silence_panics();
     let seed = a.u64_or("seed", 1);
     let mut rng = rng_from(seed, 912);
-    let mut rec = Recorder { out: Out::create(&a.str("out")), run: 0, limit_ms: a.u64_or("limit_ms", 3000), probes: HashMap::new() };
-    start_watchdog(a.str("out"), a.u64_or("hang_ms", 10000));
+    let mut rec = Recorder { out: Out::create(&a.str("out")), run: 0, limit_ms: a.u64_or("limit_ms", 30000), probes: HashMap::new() };
+    start_watchdog(a.str("out"), a.u64_or("hang_ms", 60000));
     rec.out.line(&json!({"kind": "dens"}));
     let npairs = a.usize_or("pairs", 3);
     for alg in ["opt", "rev"] {
@@ -503,7 +506,7 @@ fn big(a: &Args) {
     let seed = a.u64_or("seed", 1);
     let thorough = a.u64_or("thorough", 0) == 1;
     let mut rng = rng_from(seed, 911);
-    start_watchdog(a.str("out"), a.u64_or("hang_ms", 60000));
+    start_watchdog(a.str("out"), a.u64_or("hang_ms", 240000));
     let mut cases: Vec<Value> = Vec::new();
     let sizes: Vec<(usize, usize)> = if thorough {
         vec![(1000, 1), (1000, 10), (1000, 1000), (1000, 10000), (100000, 100), (100000, 100000), (100000, 1000000), (20000, 3)]
